@@ -50,6 +50,12 @@ def build(params):
             if fail_at is not None and rows.res.name == 'res_%d' % (fail_at[0] + 1) and i == fail_at[1]:
                 raise ValueError('injected')
             yield r
+    rfail = params.get('row_fail')
+
+    def row_step(row):
+        # a plain row function: what it raises is not shielded by a generator frame of its own
+        if rfail is not None and row['name'] == rfail['name']:
+            raise {'StopIteration': StopIteration, 'ValueError': ValueError}[rfail['kind']]('row function failed')
     dfail = params.get('down_fail_at')
 
     def downstream(rows):
@@ -61,8 +67,10 @@ def build(params):
     import contextlib
     import io
     with contextlib.redirect_stdout(io.StringIO()):
-        res, dp, _ = Flow(*sources, trim, marker, maybe_fail,
-                          DF.checkpoint('cp', checkpoint_path=params['ckdir']), downstream).results()
+        before = [row_step] if (rfail or {}).get('where') == 'before' else []
+        after = [row_step] if (rfail or {}).get('where') == 'after' else []
+        res, dp, _ = Flow(*sources, trim, marker, maybe_fail, *before,
+                          DF.checkpoint('cp', checkpoint_path=params['ckdir']), *after, downstream).results()
     return {'rows': [[canon.norm_row(canon.enc_row(r)) for r in rs] for rs in res],
             'fields': [[f['name'], f['type']] for r in dp.descriptor['resources'] for f in r['schema']['fields']]}
 
@@ -278,6 +286,44 @@ def downstream_fail_run(ctx):
     shutil.rmtree(base, ignore_errors=True)
 
 
+def row_function_fail_run(ctx):
+    """a plain row function in front of / behind the checkpoint fails at some row - also with StopIteration, which only a
+    generator frame turns into an error: the run fails, no incomplete checkpoint is left, the next run recomputes"""
+    rep = ctx.report
+    shape = [3, 2]
+    base = os.path.join(ctx.scratch, 'rowfail')
+    final_rel = os.path.join('cp', 'stream.ndjson')
+
+    def fresh(tag):
+        d = os.path.join(base, tag)
+        os.makedirs(os.path.join(d, 'ck'), exist_ok=True)
+        return d, {'rows': shape, 'ckdir': os.path.join(d, 'ck'), 'counter': os.path.join(d, 'counter')}
+    d0, p0 = fresh('baseline')
+    b = fsfault.run_child('harness.props.c08:build', p0, p0['ckdir'], d0, 'base')
+    if b['returncode'] != 0 or b['result'] is None:
+        raise RuntimeError('baseline child failed: %r %s' % (b['returncode'], b['stderr']))
+    complete = count_lines(os.path.join(p0['ckdir'], final_rel))
+    for name in ('r0-0', 'r0-2', 'r1-1'):
+        for where in ('before', 'after'):
+            for kind in ('StopIteration', 'ValueError'):
+                d, p = fresh('%s_%s_%s' % (name, where, kind))
+                p['row_fail'] = {'name': name, 'where': where, 'kind': kind}
+                r = fsfault.run_child('harness.props.c08:build', p, p['ckdir'], d, 'fail')
+                case = {'rows_per_resource': shape, 'row_function': where + ' the checkpoint', 'raises': kind, 'at_row': name}
+                rep.case('row-function-failure', case, key=['rowfail', name, where, kind])
+                if r['returncode'] == 0 and r['result'] is not None:
+                    rep.fail('failing-row-function-did-not-fail-the-run', case, {'rows': [len(x) for x in r['result'].get('rows', [])]})
+                final = os.path.join(p['ckdir'], final_rel)
+                if os.path.exists(final) and count_lines(final) != complete:
+                    rep.fail('incomplete-checkpoint-published', case, {'lines': count_lines(final), 'complete': complete})
+                del p['row_fail']
+                r2 = fsfault.run_child('harness.props.c08:build', p, p['ckdir'], d, 'rerun')
+                if r2['result'] != b['result']:
+                    rep.fail('next-run-differs-after-failure', case, {'rows': [len(x) for x in (r2['result'] or {}).get('rows', [])]})
+                shutil.rmtree(d, ignore_errors=True)
+    shutil.rmtree(base, ignore_errors=True)
+
+
 def same_object_retry(ctx):
     """a retry loop around one Flow object: the first attempt fails while the checkpoint is being written, the same
     object is run again; what is then on disk is the checkpoint of an uninterrupted run, and the next run returns it"""
@@ -356,6 +402,7 @@ def run(ctx):
         shape_run(ctx, shape, idx)
     source_fail_run(ctx)
     downstream_fail_run(ctx)
+    row_function_fail_run(ctx)
     same_object_retry(ctx)
 
     def search(disagreements):
